@@ -574,7 +574,16 @@ class YP(object):
         except StopIteration:
             pass
         finally:
-            sys.setrecursionlimit(old_recursionlimit)
+            # Release the query: when the projection function raised (or ran into the
+            # recursion limit) the query is still suspended at an answer and its
+            # variables are bound. Unwinding it can need as much stack as the search
+            # did, so do it under the more generous of the two limits.
+            sys.setrecursionlimit(max(old_recursionlimit, recursion_limit))
+            try:
+                if hasattr(query, 'close'):
+                    query.close()
+            finally:
+                sys.setrecursionlimit(old_recursionlimit)
         return result
 
     def match_dynamic(self, name, args):
